@@ -392,11 +392,17 @@ var Ops = []Op{
 		evil := a.evilCopy(t, a.Rng.Intn(2) == 0)
 		kp := fx.K(pick(a.Rng, []string{"att_x", "att_xp"}))
 		cert := kp.Cert.Raw
-		mode := a.Rng.Intn(3)
-		if mode == 2 {
-			cert = a.Genuine.Cert.Raw
+		mode := a.Rng.Intn(5)
+		certs := [][]byte{cert}
+		switch mode {
+		case 2:
+			certs = [][]byte{a.Genuine.Cert.Raw}
+		case 3: // a "chain": the attacker's certificate first, the genuine one after it
+			certs = [][]byte{cert, a.Genuine.Cert.Raw}
+		case 4: // the genuine certificate first, the attacker's after it
+			certs = [][]byte{a.Genuine.Cert.Raw, cert}
 		}
-		signed, err := a.O.SignWithCert(evil, kp, "", cert)
+		signed, err := a.O.SignWithCerts(evil, kp, "", certs...)
 		if err != nil {
 			return root, ""
 		}
